@@ -47,6 +47,58 @@ def arity_circuits():
     return out
 
 
+def tlc_circuits(ck, rnd, limit):
+    """(R) all circuits of a bounded builder state machine (NetBuild.tla), built through the real Circuit API."""
+    from .core import extract_values
+    kinds3 = rnd.sample(sorted(k.lower() for k in gen.ALL_PRIMS if gen.ARITY[k] <= 3), 3)
+    cfg = 'CONSTANTS KINDS = {%s}\n NIN = 2\n NFF = 1\n NGATES = 2\n OPEN = %s\nSPECIFICATION Spec\nINVARIANT Emit\nCHECK_DEADLOCK FALSE\n' % (
+        ', '.join('"%s"' % k for k in kinds3), 'TRUE' if ck.thorough else 'FALSE')
+    r = ck.tlc('NetBuild', cfg_text=cfg, workers=1, label='gen:NetBuild', cont=False, timeout=1500)
+    ck.require_clean(r, allow_violation=False)
+    nets_ = {}
+    for v in extract_values(r.out, 'NET'):
+        nets_[str(v)] = v
+    nets_ = list(nets_.values())
+    if len(nets_) < 50:
+        raise MachineryError('NetBuild produced only %d circuits' % len(nets_))
+    ck.count('tlc-circuits-enumerated', len(nets_))
+    rnd.shuffle(nets_)
+    out = []
+    for _, gates, ffd, po in nets_[:limit]:
+        out.append(build_net(gates, ffd, po, rnd.choice(['v', 'b'])))
+    ck.extra['netbuild'] = 'KINDS=%s NIN=2 NFF=1 NGATES=2: %d circuits enumerated, %d built' % (kinds3, len(nets_), len(out))
+    return out
+
+
+def build_net(gates, ffd, po, style):
+    Circuit, Node, Line = gen.kyupy_mods()
+    c = Circuit('net')
+    sig = []
+    for i in range(2):
+        if style == 'v':
+            p = Node(c, 'i%d' % i, 'input'); c.io_nodes.append(p); f = Node(c, 'i%d' % i); Line(c, p, f)
+        else:
+            f = Node(c, 'i%d' % i); c.io_nodes.append(f)
+        sig.append(f)
+    ff = Node(c, 'ff0', 'DFF')
+    q = Node(c, 'ff0'); Line(c, (ff, 0), q)
+    qn = Node(c, 'ff0n'); Line(c, (ff, 1), qn)
+    sig += [q, qn]
+    for k, (kind, ops) in enumerate(gates):
+        g = Node(c, 'g%d' % k, kind.upper())
+        for j, o in enumerate(ops):
+            if o:
+                Line(c, sig[o - 1], (g, j))
+        f = Node(c, 'g%d' % k); Line(c, g, f)
+        sig.append(f)
+    Line(c, sig[ffd[0] - 1], (ff, 0))
+    if style == 'v':
+        o = Node(c, 'o', 'output'); c.io_nodes.append(o); Line(c, sig[po - 1], o)
+    else:
+        c.io_nodes.append(sig[po - 1])
+    return c
+
+
 def records(ck, rnd, circuits, ms, per_circuit_opts=None):
     recs, meta = [], []
     for ci, c in enumerate(circuits):
@@ -118,7 +170,7 @@ def main(tier=None, replay=None):
     ck.require_clean(r, allow_violation=False)
     if r.rc != 0:
         raise MachineryError('LogicLaws: the specification of the algebra is inconsistent: %s' % r.invariant_violations)
-    circuits = make_circuits(ck, rnd, ck.pick(150, 1500))
+    circuits = make_circuits(ck, rnd, ck.pick(150, 1500)) + tlc_circuits(ck, rnd, ck.pick(160, 20000))
     recs, meta = records(ck, rnd, circuits, (2,))
     judge(ck, recs, meta, (PID,))
     for mt in meta:
